@@ -23,14 +23,22 @@ sys.path.insert(0, os.path.dirname(os.path.abspath(__file__)))
 import vlib  # noqa: E402
 from vlib import Case, Problem, VERIF, LEAN, log  # noqa: E402
 
-# property -> component plugin
-REGISTRY = {
-    "C19": "comp_buffers",
-}
-try:  # plugins register themselves in tools/registry.json so that adding one needs no edit here
-    REGISTRY.update(json.load(open(os.path.join(VERIF, "tools", "registry.json"))))
-except OSError:
-    pass
+
+
+def registry():
+    """property -> plugin module name, from the PROPERTIES table of every tools/comp_*.py"""
+    reg = {}
+    here = os.path.dirname(os.path.abspath(__file__))
+    for f in sorted(os.listdir(here)):
+        if f.startswith("comp_") and f.endswith(".py"):
+            try:
+                mod = importlib.import_module(f[:-3])
+            except Exception as e:  # a broken plugin must not take the others down
+                log("plugin %s failed to import: %s" % (f, e))
+                continue
+            for prop in getattr(mod, "PROPERTIES", {}):
+                reg[prop] = f[:-3]
+    return reg
 
 
 def main():
@@ -42,10 +50,11 @@ def main():
     args = ap.parse_args()
     prop = args.prop
     seed = int(os.environ.get("VERIF_SEED", "1") or "1")
-    if prop not in REGISTRY:
+    reg = registry()
+    if prop not in reg:
         print("unknown property", prop)
         return 2
-    plugin = importlib.import_module(REGISTRY[prop])
+    plugin = importlib.import_module(reg[prop])
     t0 = time.time()
     work = tempfile.mkdtemp(prefix="celma_verif_%s_" % prop)
     try:
